@@ -259,11 +259,18 @@ def run_misc(case, ctx, g):
         if op == 'mprod1':
             ctx.count('mprod/single')
             key = 'mprod/single'
-            res = ctx.lib('mprod', lambda t, a, m: t.mprod(a, m), x, mats[0], modes[0])
+            # the mode as a non-negative index or (every third case) as the equivalent negative one, which the routine accepts like torch does
+            mneg = case['seed'] % 3 == 1
+            if mneg:
+                ctx.count('mprod/negative-mode-index')
+            res = ctx.lib('mprod', lambda t, a, m: t.mprod(a, m), x, mats[0], modes[0] - d if mneg else modes[0])
         else:
             ctx.count('mprod/list')
             key = 'mprod/list'
-            res = ctx.lib('mprod(list)', lambda t, a, m: t.mprod(a, m), x, mats, list(modes))
+            mneg = case['seed'] % 3 == 1
+            if mneg:
+                ctx.count('mprod/negative-mode-index')
+            res = ctx.lib('mprod(list)', lambda t, a, m: t.mprod(a, m), x, mats, [m_ - d if (mneg and j_ % 2 == 0) else m_ for j_, m_ in enumerate(modes)])
         want_ttm = False
     elif op == 'to_ttm':
         x = gens.make_tt(N, R, dt, case['vals'], g)
